@@ -3,7 +3,7 @@
   the inductive invariant `QInv` (handles in the queue strictly increase, are exactly the unanswered ones, the
   queue and the buffer channel respect their capacities, the worker drains only after `shutdown()` set the flag),
   its preservation by every event (`qinv_step`), reachability (`QReach`, `qinv_reach`), and the
-  per-event specifications (`workerStep_spec`, `ClientShape`, `Same`) that C11 and C13 are read off from.
+  per-event specifications (`workerStep_qspec`, `QClientShape`, `QSame`) that C11 and C13 are read off from.
 -/
 import CachedModel.State
 import CachedProofs.Lemmas.AMap
@@ -17,7 +17,7 @@ def queueHandles (s : State) : List Nat := s.queue.filterMap (·.2)
 
 /-- what a parked call may be: a `send` never carries `Shutdown`; the two sends of `shutdown()` are
     reached only after the flag is set -/
-def Pending.ok (shutting : Bool) : Pending → Prop
+def Pending.qok (shutting : Bool) : Pending → Prop
   | .send cmd => cmd ≠ .shutdown
   | .shutdownCmd => shutting = true
   | .shutdownBuf => shutting = true
@@ -35,11 +35,11 @@ structure QInv (s : State) : Prop where
   /-- (added, needed for `flagSticky`) a queued `Shutdown` command was sent by `shutdown()`, after the flag -/
   shutdownQueued : ∀ x ∈ s.queue, x.1 = .shutdown → s.shutting = true
   /-- (added, needed for `shutdownQueued`) -/
-  parkedOk : ∀ c p, s.pend.get? c = some p → p.ok s.shutting
+  parkedOk : ∀ c p, s.pend.get? c = some p → p.qok s.shutting
 
 /-- `s'` differs from `s` in nothing the queue invariant reads, except that readers may have handed
     further full buffers to the (bounded, non-blocking) buffer channel. -/
-structure Same (s s' : State) : Prop where
+structure QSame (s s' : State) : Prop where
   queue : s'.queue = s.queue
   acks : s'.acks = s.acks
   worker : s'.worker = s.worker
@@ -48,22 +48,22 @@ structure Same (s s' : State) : Prop where
   pend : s'.pend = s.pend
   bufq : s.bufq.length ≤ s.cfg.bufChanCap → s'.bufq.length ≤ s.cfg.bufChanCap
 
-theorem Same.refl (s : State) : Same s s := ⟨rfl, rfl, rfl, rfl, rfl, rfl, id⟩
+theorem QSame.refl (s : State) : QSame s s := ⟨rfl, rfl, rfl, rfl, rfl, rfl, id⟩
 
-theorem Same.trans {s t u : State} (h1 : Same s t) (h2 : Same t u) : Same s u :=
+theorem QSame.trans {s t u : State} (h1 : QSame s t) (h2 : QSame t u) : QSame s u :=
   ⟨h2.queue.trans h1.queue, h2.acks.trans h1.acks, h2.worker.trans h1.worker, h2.cfg.trans h1.cfg,
    h2.shutting.trans h1.shutting, h2.pend.trans h1.pend,
    fun h => by have := h2.bufq (by rw [h1.cfg]; exact h1.bufq h); rwa [h1.cfg] at this⟩
 
 /-- built from definitional equalities (structure updates of other fields) -/
-theorem Same.of_eq {s s' : State} (h1 : s'.queue = s.queue) (h2 : s'.acks = s.acks) (h3 : s'.worker = s.worker)
+theorem QSame.of_eq {s s' : State} (h1 : s'.queue = s.queue) (h2 : s'.acks = s.acks) (h3 : s'.worker = s.worker)
     (h4 : s'.cfg = s.cfg) (h5 : s'.shutting = s.shutting) (h6 : s'.pend = s.pend) (h7 : s'.bufq = s.bufq) :
-    Same s s' := ⟨h1, h2, h3, h4, h5, h6, fun h => by rw [h7]; exact h⟩
+    QSame s s' := ⟨h1, h2, h3, h4, h5, h6, fun h => by rw [h7]; exact h⟩
 
-theorem queueHandles_of_same {s s' : State} (h : Same s s') : queueHandles s' = queueHandles s := by
+theorem queueHandles_of_same {s s' : State} (h : QSame s s') : queueHandles s' = queueHandles s := by
   simp only [queueHandles, h.queue]
 
-theorem QInv.same {s s' : State} (h : QInv s) (e : Same s s') : QInv s' := by
+theorem QInv.same {s s' : State} (h : QInv s) (e : QSame s s') : QInv s' := by
   have eh := queueHandles_of_same e
   refine ⟨?_, ?_, ?_, ?_, ?_, ?_, ?_, ?_, ?_⟩
   · rw [eh]; exact h.sorted
@@ -78,35 +78,35 @@ theorem QInv.same {s s' : State} (h : QInv s) (e : Same s s') : QInv s' := by
 
 /-! ### the worker's helpers do not touch the queue, the acknowledgements, the flags -/
 
-theorem same_applyEvict (s : State) (e : Evicted) : Same s (applyEvict s e) := by
+theorem qsame_applyEvict (s : State) (e : Evicted) : QSame s (applyEvict s e) := by
   unfold applyEvict
   obtain ⟨a, key, w⟩ := e
   dsimp only
-  split <;> exact Same.of_eq rfl rfl rfl rfl rfl rfl rfl
+  split <;> exact QSame.of_eq rfl rfl rfl rfl rfl rfl rfl
 
-theorem same_foldl_applyEvict (l : List Evicted) (s : State) : Same s (l.foldl applyEvict s) := by
+theorem qsame_foldl_applyEvict (l : List Evicted) (s : State) : QSame s (l.foldl applyEvict s) := by
   induction l generalizing s with
-  | nil => exact Same.refl s
-  | cons e l ih => exact (same_applyEvict s e).trans (ih _)
+  | nil => exact QSame.refl s
+  | cons e l ih => exact (qsame_applyEvict s e).trans (ih _)
 
-theorem same_ttlPut (s : State) (id e : Nat) : Same s (ttlPut s id e) := Same.of_eq rfl rfl rfl rfl rfl rfl rfl
-theorem same_ttlDelete (s : State) (id e : Nat) : Same s (ttlDelete s id e) := Same.of_eq rfl rfl rfl rfl rfl rfl rfl
-theorem same_ttlUpdate (s : State) (id e e' : Nat) : Same s (ttlUpdate s id e e') :=
-  Same.of_eq rfl rfl rfl rfl rfl rfl rfl
+theorem qsame_ttlPut (s : State) (id e : Nat) : QSame s (ttlPut s id e) := QSame.of_eq rfl rfl rfl rfl rfl rfl rfl
+theorem qsame_ttlDelete (s : State) (id e : Nat) : QSame s (ttlDelete s id e) := QSame.of_eq rfl rfl rfl rfl rfl rfl rfl
+theorem qsame_ttlUpdate (s : State) (id e e' : Nat) : QSame s (ttlUpdate s id e e') :=
+  QSame.of_eq rfl rfl rfl rfl rfl rfl rfl
 
 /-- the state inside an `Exec` -/
-def Exec.state : Exec → State
+def Exec.qstate : Exec → State
   | .done s _ _ _ _ => s
   | .panicked s _ => s
 
 /-- the status of a completed command is a real outcome -/
-def Exec.answered : Exec → Prop
+def Exec.qanswered : Exec → Prop
   | .done _ st _ _ _ => st ≠ .pending
   | .panicked _ _ => True
 
 /-! #### admission never answers `pending` -/
 
-theorem createLoop_status {t : TinyLFU} {size : Nat} {w : Int} {incEst : Nat} :
+theorem createLoop_status_ne_pending {t : TinyLFU} {size : Nat} {w : Int} {incEst : Nat} :
     ∀ (fuel : Nat) (a : Adm) (sample : List SKey) (o : Oracle) (ev : List Evicted) (pp : List SKey) (r : LoopResult),
       createLoop t size w incEst fuel a sample o ev pp = .ok r → r.status ≠ .pending := by
   intro fuel
@@ -133,7 +133,7 @@ theorem createLoop_status {t : TinyLFU} {size : Nat} {w : Int} {incEst : Nat} :
               · cases h
               · exact ih _ _ _ _ _ _ h
 
-theorem maybeAdd_status {t : TinyLFU} {size : Nat} {a : Adm} {id key hash : Nat} {w : Int} {o : Oracle}
+theorem maybeAdd_status_ne_pending {t : TinyLFU} {size : Nat} {a : Adm} {id key hash : Nat} {w : Int} {o : Oracle}
     {r : AdmResult} (h : maybeAdd t size a id key hash w o = .ok r) : r.status ≠ .pending := by
   unfold maybeAdd at h
   split at h
@@ -148,66 +148,66 @@ theorem maybeAdd_status {t : TinyLFU} {size : Nat} {a : Adm} {id key hash : Nat}
           · cases h
           · rename_i r' hl
             simp only [Except.ok.injEq] at h; subst h
-            exact createLoop_status _ _ _ _ _ _ _ hl
+            exact createLoop_status_ne_pending _ _ _ _ _ _ _ hl
 
-theorem workerPut_spec {s : State} {id hash : Nat} {w : Int} {k v : Nat} {ttl : Option Nat} {o o' : Oracle}
-    {e : Exec} (h : workerPut s id hash w k v ttl o = .ok (e, o')) : Same s e.state ∧ e.answered := by
+theorem workerPut_qspec {s : State} {id hash : Nat} {w : Int} {k v : Nat} {ttl : Option Nat} {o o' : Oracle}
+    {e : Exec} (h : workerPut s id hash w k v ttl o = .ok (e, o')) : QSame s e.qstate ∧ e.qanswered := by
   unfold workerPut at h
   split at h
   · simp only [Except.ok.injEq, Prod.mk.injEq] at h
     obtain ⟨rfl, -⟩ := h
-    exact ⟨Same.refl s, by simp [Exec.answered]⟩
+    exact ⟨QSame.refl s, by simp [Exec.qanswered]⟩
   · split at h
     · cases h
     · rename_i r hr
-      have hst := maybeAdd_status hr
-      have h1 : Same s (r.evicted.foldl applyEvict { s with adm := r.adm }) :=
-        (Same.of_eq (s := s) (s' := { s with adm := r.adm }) rfl rfl rfl rfl rfl rfl rfl).trans
-          (same_foldl_applyEvict _ _)
+      have hst := maybeAdd_status_ne_pending hr
+      have h1 : QSame s (r.evicted.foldl applyEvict { s with adm := r.adm }) :=
+        (QSame.of_eq (s := s) (s' := { s with adm := r.adm }) rfl rfl rfl rfl rfl rfl rfl).trans
+          (qsame_foldl_applyEvict _ _)
       simp only [] at h
       generalize r.evicted.foldl applyEvict { s with adm := r.adm } = s1 at h h1
       split at h
       · split at h
         · simp only [Except.ok.injEq, Prod.mk.injEq] at h
           obtain ⟨rfl, -⟩ := h
-          exact ⟨h1.trans (Same.of_eq rfl rfl rfl rfl rfl rfl rfl), by simp [Exec.answered]⟩
+          exact ⟨h1.trans (QSame.of_eq rfl rfl rfl rfl rfl rfl rfl), by simp [Exec.qanswered]⟩
         · split at h
           · simp only [Except.ok.injEq, Prod.mk.injEq] at h
             obtain ⟨rfl, -⟩ := h
-            exact ⟨h1.trans (Same.of_eq rfl rfl rfl rfl rfl rfl rfl), trivial⟩
+            exact ⟨h1.trans (QSame.of_eq rfl rfl rfl rfl rfl rfl rfl), trivial⟩
           · simp only [Except.ok.injEq, Prod.mk.injEq] at h
             obtain ⟨rfl, -⟩ := h
-            exact ⟨h1.trans (Same.of_eq rfl rfl rfl rfl rfl rfl rfl), by simp [Exec.answered]⟩
+            exact ⟨h1.trans (QSame.of_eq rfl rfl rfl rfl rfl rfl rfl), by simp [Exec.qanswered]⟩
       · simp only [Except.ok.injEq, Prod.mk.injEq] at h
         obtain ⟨rfl, -⟩ := h
-        exact ⟨h1.trans (Same.of_eq rfl rfl rfl rfl rfl rfl rfl), hst⟩
+        exact ⟨h1.trans (QSame.of_eq rfl rfl rfl rfl rfl rfl rfl), hst⟩
 
-theorem workerUpdateWeight_spec (s : State) (id : Nat) (w : Int) :
-    Same s (workerUpdateWeight s id w).state ∧ (workerUpdateWeight s id w).answered := by
+theorem workerUpdateWeight_qspec (s : State) (id : Nat) (w : Int) :
+    QSame s (workerUpdateWeight s id w).qstate ∧ (workerUpdateWeight s id w).qanswered := by
   unfold workerUpdateWeight
   split
-  · exact ⟨Same.refl s, by simp [Exec.answered]⟩
+  · exact ⟨QSame.refl s, by simp [Exec.qanswered]⟩
   · dsimp only
     split
-    · exact ⟨Same.refl s, trivial⟩
-    · exact ⟨Same.of_eq rfl rfl rfl rfl rfl rfl rfl, by simp [Exec.answered]⟩
+    · exact ⟨QSame.refl s, trivial⟩
+    · exact ⟨QSame.of_eq rfl rfl rfl rfl rfl rfl rfl, by simp [Exec.qanswered]⟩
 
-theorem workerDelete_spec (s : State) (k : Nat) :
-    Same s (workerDelete s k).state ∧ (workerDelete s k).answered := by
+theorem workerDelete_qspec (s : State) (k : Nat) :
+    QSame s (workerDelete s k).qstate ∧ (workerDelete s k).qanswered := by
   unfold workerDelete
   split
-  · exact ⟨Same.refl s, by simp [Exec.answered]⟩
+  · exact ⟨QSame.refl s, by simp [Exec.qanswered]⟩
   · rename_i e he
     simp only []
-    refine ⟨?_, by simp [Exec.answered]⟩
-    simp only [Exec.state]
-    split <;> split <;> exact Same.of_eq rfl rfl rfl rfl rfl rfl rfl
+    refine ⟨?_, by simp [Exec.qanswered]⟩
+    simp only [Exec.qstate]
+    split <;> split <;> exact QSame.of_eq rfl rfl rfl rfl rfl rfl rfl
 
 
 /-! ### one step of the worker -/
 
 /-- What one successful worker step does, given that `(cmd, hd) :: q` was the queue. -/
-structure WorkerPost (s : State) (cmd : Cmd) (hd : Option Nat) (q : List (Cmd × Option Nat))
+structure QWorkerPost (s : State) (cmd : Cmd) (hd : Option Nat) (q : List (Cmd × Option Nat))
     (s' : State) (out : Out) : Prop where
   cfg : s'.cfg = s.cfg
   shutting : s'.shutting = s.shutting
@@ -223,44 +223,44 @@ structure WorkerPost (s : State) (cmd : Cmd) (hd : Option Nat) (q : List (Cmd ×
        (s.worker = .running ∧ cmd = .shutdown ∧ s'.worker = .draining ∧ st = .accepted) ∨
        (s.worker = .running ∧ cmd ≠ .shutdown ∧ s'.worker = .running)))
 
-theorem workerPost_done {s : State} {cmd : Cmd} {hd : Option Nat} {q : List (Cmd × Option Nat)}
+theorem qworkerPost_done {s : State} {cmd : Cmd} {hd : Option Nat} {q : List (Cmd × Option Nat)}
     (hw : s.worker = .running) (hc : cmd ≠ .shutdown) {s1 : State} {st : Status}
-    (hs : Same { s with queue := q } s1) (ha : st ≠ .pending) (kind : String) (ie : Option Nat)
+    (hs : QSame { s with queue := q } s1) (ha : st ≠ .pending) (kind : String) (ie : Option Nat)
     (pp : List SKey) (ev : List Evicted) :
-    WorkerPost s cmd hd q { s1 with acks := setAck s1.acks hd st } (.worked kind st ie pp ev) := by
+    QWorkerPost s cmd hd q { s1 with acks := setAck s1.acks hd st } (.worked kind st ie pp ev) := by
   refine ⟨hs.cfg, hs.shutting, hs.pend, hs.bufq, Or.inr ⟨kind, st, ie, pp, ev, rfl, ha, hs.queue, ?_, ?_⟩⟩
   · show setAck s1.acks hd st = setAck s.acks hd st
     rw [hs.acks]
   · exact Or.inr (Or.inr ⟨hw, hc, hs.worker.trans hw⟩)
 
-theorem workerPost_panicked {s : State} {cmd : Cmd} {hd : Option Nat} {q : List (Cmd × Option Nat)}
+theorem qworkerPost_panicked {s : State} {cmd : Cmd} {hd : Option Nat} {q : List (Cmd × Option Nat)}
     (hw : s.worker = .running) (hc : cmd ≠ .shutdown) {s1 : State}
-    (hs : Same { s with queue := q } s1) (p : Panic) :
-    WorkerPost s cmd hd q { s1 with worker := .dead, queue := [] } (.workerPanic p) :=
+    (hs : QSame { s with queue := q } s1) (p : Panic) :
+    QWorkerPost s cmd hd q { s1 with worker := .dead, queue := [] } (.workerPanic p) :=
   ⟨hs.cfg, hs.shutting, hs.pend, hs.bufq, Or.inl ⟨p, rfl, hw, hc, rfl, rfl, hs.acks⟩⟩
 
 /-- the `finish` continuation of `workerStep` -/
-theorem workerPost_finish {s : State} {cmd : Cmd} {hd : Option Nat} {q : List (Cmd × Option Nat)}
+theorem qworkerPost_finish {s : State} {cmd : Cmd} {hd : Option Nat} {q : List (Cmd × Option Nat)}
     (hw : s.worker = .running) (hc : cmd ≠ .shutdown) {e : Exec}
-    (hs : Same { s with queue := q } e.state) (ha : e.answered) (kind : String) {o1 o' : Oracle} {s' : State}
+    (hs : QSame { s with queue := q } e.qstate) (ha : e.qanswered) (kind : String) {o1 o' : Oracle} {s' : State}
     {out : Out}
     (h : (match (e, o1) with
       | (.done s1 st ie pp ev, o') =>
         (Except.ok ({ s1 with acks := setAck s1.acks hd st }, Out.worked kind st ie pp ev, o') : Except String _)
       | (.panicked s1 p, o') => .ok ({ s1 with worker := .dead, queue := [] }, .workerPanic p, o')) =
-      .ok (s', out, o')) : WorkerPost s cmd hd q s' out := by
+      .ok (s', out, o')) : QWorkerPost s cmd hd q s' out := by
   cases e with
   | done s1 st ie pp ev =>
     simp only [Except.ok.injEq, Prod.mk.injEq] at h
     obtain ⟨rfl, rfl, -⟩ := h
-    exact workerPost_done hw hc hs ha kind ie pp ev
+    exact qworkerPost_done hw hc hs ha kind ie pp ev
   | panicked s1 p =>
     simp only [Except.ok.injEq, Prod.mk.injEq] at h
     obtain ⟨rfl, rfl, -⟩ := h
-    exact workerPost_panicked hw hc hs p
+    exact qworkerPost_panicked hw hc hs p
 
-theorem workerStep_spec {s s' : State} {o o' : Oracle} {out : Out} (h : workerStep s o = .ok (s', out, o')) :
-    s.worker ≠ .dead ∧ ∃ cmd hd q, s.queue = (cmd, hd) :: q ∧ WorkerPost s cmd hd q s' out := by
+theorem workerStep_qspec {s s' : State} {o o' : Oracle} {out : Out} (h : workerStep s o = .ok (s', out, o')) :
+    s.worker ≠ .dead ∧ ∃ cmd hd q, s.queue = (cmd, hd) :: q ∧ QWorkerPost s cmd hd q s' out := by
   unfold workerStep at h
   split at h
   · cases h
@@ -280,21 +280,21 @@ theorem workerStep_spec {s s' : State} {o o' : Oracle} {out : Out} (h : workerSt
     · split at h
       · rename_i r hr
         obtain ⟨e, o1⟩ := r
-        obtain ⟨h1, h2⟩ := workerPut_spec hr
-        exact workerPost_finish hw (by simp) h1 h2 "Put" h
+        obtain ⟨h1, h2⟩ := workerPut_qspec hr
+        exact qworkerPost_finish hw (by simp) h1 h2 "Put" h
       · cases h
     · split at h
       · rename_i r hr
         obtain ⟨e, o1⟩ := r
-        obtain ⟨h1, h2⟩ := workerPut_spec hr
-        exact workerPost_finish hw (by simp) h1 h2 "PutWithTTL" h
+        obtain ⟨h1, h2⟩ := workerPut_qspec hr
+        exact qworkerPost_finish hw (by simp) h1 h2 "PutWithTTL" h
       · cases h
     · rename_i id w
-      obtain ⟨h1, h2⟩ := workerUpdateWeight_spec { s with queue := q } id w
-      exact workerPost_finish hw (by simp) h1 h2 "UpdateWeight" h
+      obtain ⟨h1, h2⟩ := workerUpdateWeight_qspec { s with queue := q } id w
+      exact qworkerPost_finish hw (by simp) h1 h2 "UpdateWeight" h
     · rename_i k
-      obtain ⟨h1, h2⟩ := workerDelete_spec { s with queue := q } k
-      exact workerPost_finish hw (by simp) h1 h2 "Delete" h
+      obtain ⟨h1, h2⟩ := workerDelete_qspec { s with queue := q } k
+      exact qworkerPost_finish hw (by simp) h1 h2 "Delete" h
 
 
 /-! ### `QInv` is preserved by a worker step -/
@@ -333,7 +333,7 @@ theorem qinv_pop {s s' : State} {cmd : Cmd} {hd : Option Nat} {q : List (Cmd × 
     omega
   have hsq : ∀ x ∈ s'.queue, x.1 = .shutdown → s'.shutting = true := by
     intro x hx hc; rw [hsh]; exact h.shutdownQueued x (hmem x hx) hc
-  have hpk : ∀ c p, s'.pend.get? c = some p → p.ok s'.shutting := by
+  have hpk : ∀ c p, s'.pend.get? c = some p → p.qok s'.shutting := by
     rw [hp, hsh]; exact h.parkedOk
   have hbuf : s'.bufq.length ≤ s'.cfg.bufChanCap := by rw [hcfg]; exact hb h.bufBounded
   cases hd with
@@ -387,7 +387,7 @@ theorem qinv_dead {s s' : State} (h : QInv s) (hq' : s'.queue = []) (hwk : s'.wo
 
 theorem qinv_workerStep {s s' : State} {o o' : Oracle} {out : Out} (h : QInv s)
     (hs : workerStep s o = .ok (s', out, o')) : QInv s' := by
-  obtain ⟨hlive, cmd, hd, q, hq, hpost⟩ := workerStep_spec hs
+  obtain ⟨hlive, cmd, hd, q, hq, hpost⟩ := workerStep_qspec hs
   rcases hpost.outcome with ⟨p, -, -, -, hwk, hq', -⟩ | ⟨kind, st, ie, pp, ev, -, hst, hq', ha, hw⟩
   · exact qinv_dead h hq' hwk hpost.cfg hpost.shutting hpost.pend hpost.bufq
   · refine qinv_pop h hq hq' ha hst hpost.cfg hpost.shutting hpost.pend hpost.bufq ?_ hlive
@@ -417,7 +417,7 @@ theorem sendCmd_eq_of_dead {s : State} (c : Nat) (cmd : Cmd) (hw : s.worker = .d
   rw [if_pos hw]
 
 /-- parking a call -/
-theorem qinv_park {s : State} (h : QInv s) (c : Nat) {p : Pending} (hp : p.ok s.shutting) :
+theorem qinv_park {s : State} (h : QInv s) (c : Nat) {p : Pending} (hp : p.qok s.shutting) :
     QInv { s with pend := s.pend.set c p } := by
   refine ⟨h.sorted, h.inRange, h.queuedPending, h.pendingQueued, h.bounded, h.bufBounded, h.flagSticky,
     h.shutdownQueued, ?_⟩
@@ -525,70 +525,70 @@ theorem qinv_spotAck {s : State} (h : QInv s) {st : Status} (hst : st ≠ .pendi
 
 /-- What a writing call (`put*`, `put_or_update`, `delete`) amounts to for the queue: nothing, one
     `CommandExecutor::send` of a command other than `Shutdown`, or one acknowledgement answered on the spot. -/
-inductive ClientShape (s : State) (c : Nat) : State × Out → Prop
-  | same {s1 : State} (out : Out) : Same s s1 → ClientShape s c (s1, out)
-  | send {s1 : State} (cmd : Cmd) : Same s s1 → cmd ≠ .shutdown → ClientShape s c (sendCmd s1 c cmd)
-  | spot {s1 : State} (st : Status) : Same s s1 → st ≠ .pending → ClientShape s c (spotAck s1 st)
+inductive QClientShape (s : State) (c : Nat) : State × Out → Prop
+  | same {s1 : State} (out : Out) : QSame s s1 → QClientShape s c (s1, out)
+  | send {s1 : State} (cmd : Cmd) : QSame s s1 → cmd ≠ .shutdown → QClientShape s c (sendCmd s1 c cmd)
+  | spot {s1 : State} (st : Status) : QSame s s1 → st ≠ .pending → QClientShape s c (spotAck s1 st)
 
-theorem qinv_clientShape {s : State} {c : Nat} {r : State × Out} (h : QInv s) (hs : ClientShape s c r) :
+theorem qinv_clientShape {s : State} {c : Nat} {r : State × Out} (h : QInv s) (hs : QClientShape s c r) :
     QInv r.1 := by
   cases hs with
   | same out e => exact h.same e
   | send cmd e hc => exact qinv_sendCmd (h.same e) c hc
   | spot st e hst => exact qinv_spotAck (h.same e) hst
 
-theorem shape_clientPutChecked (s : State) (c k v : Nat) (w : Int) (ttl : Option Nat) :
-    ClientShape s c (clientPutChecked s c k v w ttl) := by
+theorem qshape_clientPutChecked (s : State) (c k v : Nat) (w : Int) (ttl : Option Nat) :
+    QClientShape s c (clientPutChecked s c k v w ttl) := by
   unfold clientPutChecked
   split
-  · exact .spot _ (Same.refl s) (by simp)
+  · exact .spot _ (QSame.refl s) (by simp)
   · cases ttl with
-    | none => exact .send _ (Same.of_eq rfl rfl rfl rfl rfl rfl rfl) (by simp)
-    | some t => exact .send _ (Same.of_eq rfl rfl rfl rfl rfl rfl rfl) (by simp)
+    | none => exact .send _ (QSame.of_eq rfl rfl rfl rfl rfl rfl rfl) (by simp)
+    | some t => exact .send _ (QSame.of_eq rfl rfl rfl rfl rfl rfl rfl) (by simp)
 
-theorem shape_clientPut (s : State) (c k v : Nat) : ClientShape s c (clientPut s c k v) := by
+theorem qshape_clientPut (s : State) (c k v : Nat) : QClientShape s c (clientPut s c k v) := by
   unfold clientPut
   dsimp only
   split
-  · exact .same _ (Same.refl s)
+  · exact .same _ (QSame.refl s)
   · split
-    · exact .same _ (Same.refl s)
-    · exact shape_clientPutChecked ..
+    · exact .same _ (QSame.refl s)
+    · exact qshape_clientPutChecked ..
 
-theorem shape_clientPutW (s : State) (c k v : Nat) (w : Int) : ClientShape s c (clientPutW s c k v w) := by
+theorem qshape_clientPutW (s : State) (c k v : Nat) (w : Int) : QClientShape s c (clientPutW s c k v w) := by
   unfold clientPutW
   split
-  · exact .same _ (Same.refl s)
+  · exact .same _ (QSame.refl s)
   · split
-    · exact .same _ (Same.refl s)
-    · exact shape_clientPutChecked ..
+    · exact .same _ (QSame.refl s)
+    · exact qshape_clientPutChecked ..
 
-theorem shape_clientPutTtl (s : State) (c k v t : Nat) : ClientShape s c (clientPutTtl s c k v t) := by
+theorem qshape_clientPutTtl (s : State) (c k v t : Nat) : QClientShape s c (clientPutTtl s c k v t) := by
   unfold clientPutTtl
   split
-  · exact .same _ (Same.refl s)
+  · exact .same _ (QSame.refl s)
   · dsimp only
     split
-    · exact .same _ (Same.refl s)
-    · exact shape_clientPutChecked ..
+    · exact .same _ (QSame.refl s)
+    · exact qshape_clientPutChecked ..
 
-theorem shape_clientPutWTtl (s : State) (c k v : Nat) (w : Int) (t : Nat) :
-    ClientShape s c (clientPutWTtl s c k v w t) := by
+theorem qshape_clientPutWTtl (s : State) (c k v : Nat) (w : Int) (t : Nat) :
+    QClientShape s c (clientPutWTtl s c k v w t) := by
   unfold clientPutWTtl
   split
-  · exact .same _ (Same.refl s)
+  · exact .same _ (QSame.refl s)
   · split
-    · exact .same _ (Same.refl s)
-    · exact shape_clientPutChecked ..
+    · exact .same _ (QSame.refl s)
+    · exact qshape_clientPutChecked ..
 
-theorem shape_clientDelete (s : State) (c k : Nat) : ClientShape s c (clientDelete s c k) := by
+theorem qshape_clientDelete (s : State) (c k : Nat) : QClientShape s c (clientDelete s c k) := by
   unfold clientDelete
   split
-  · exact .same _ (Same.refl s)
-  · exact .send _ (Same.of_eq rfl rfl rfl rfl rfl rfl rfl) (by simp)
+  · exact .same _ (QSame.refl s)
+  · exact .send _ (QSame.of_eq rfl rfl rfl rfl rfl rfl rfl) (by simp)
 
-theorem shape_upsert_tail {s s2 : State} (h2 : Same s s2) (uw2 : Option Int) (c id : Nat) :
-    ClientShape s c (match uw2 with
+theorem qshape_upsert_tail {s s2 : State} (h2 : QSame s s2) (uw2 : Option Int) (c id : Nat) :
+    QClientShape s c (match uw2 with
           | some weight =>
             if (!inI64 weight) = true then (s2, Out.panic Panic.weightOverflow)
             else
@@ -603,42 +603,42 @@ theorem shape_upsert_tail {s s2 : State} (h2 : Same s s2) (uw2 : Option Int) (c 
       · exact .send _ h2 (by simp)
   · exact .spot _ h2 (by simp)
 
-theorem shape_clientUpsert (s : State) (c k : Nat) (v : Option Nat) (w : Option Int) (ttl : Option Nat)
-    (rm : Bool) : ClientShape s c (clientUpsert s c k v w ttl rm) := by
+theorem qshape_clientUpsert (s : State) (c k : Nat) (v : Option Nat) (w : Option Int) (ttl : Option Nat)
+    (rm : Bool) : QClientShape s c (clientUpsert s c k v w ttl rm) := by
   unfold clientUpsert
   split
-  · exact .same _ (Same.refl s)
+  · exact .same _ (QSame.refl s)
   · extract_lets uw
     clear_value uw
     split
     · split
       · split
-        · exact .same _ (Same.refl s)
+        · exact .same _ (QSame.refl s)
         · split
-          · exact .send _ (Same.of_eq rfl rfl rfl rfl rfl rfl rfl) (by simp)
-          · exact .send _ (Same.of_eq rfl rfl rfl rfl rfl rfl rfl) (by simp)
-      · exact .same _ (Same.refl s)
+          · exact .send _ (QSame.of_eq rfl rfl rfl rfl rfl rfl rfl) (by simp)
+          · exact .send _ (QSame.of_eq rfl rfl rfl rfl rfl rfl rfl) (by simp)
+      · exact .same _ (QSame.refl s)
     · rename_i e hg
       extract_lets newExp
       clear_value newExp
       split
-      · exact .same _ (Same.refl s)
+      · exact .same _ (QSame.refl s)
       · extract_lets e' s1 existing
         clear_value existing
-        have h1 : Same s s1 := Same.of_eq rfl rfl rfl rfl rfl rfl rfl
+        have h1 : QSame s s1 := QSame.of_eq rfl rfl rfl rfl rfl rfl rfl
         clear_value s1
         split
         rename_i s2 uw2 hpair
-        refine shape_upsert_tail ?_ uw2 c _
+        refine qshape_upsert_tail ?_ uw2 c _
         split at hpair <;> cases hpair
-        · exact h1.trans (same_ttlPut ..)
-        · exact h1.trans (same_ttlDelete ..)
-        · exact h1.trans (same_ttlUpdate ..)
+        · exact h1.trans (qsame_ttlPut ..)
+        · exact h1.trans (qsame_ttlDelete ..)
+        · exact h1.trans (qsame_ttlUpdate ..)
         · exact h1
 
 /-! ### reads, the sweeper, the access consumer -/
 
-theorem same_acceptBuffer (s : State) (hs : List Nat) : Same s (acceptBuffer s hs) := by
+theorem qsame_acceptBuffer (s : State) (hs : List Nat) : QSame s (acceptBuffer s hs) := by
   unfold acceptBuffer
   split
   · rename_i hc
@@ -647,9 +647,9 @@ theorem same_acceptBuffer (s : State) (hs : List Nat) : Same s (acceptBuffer s h
     show (s.bufq ++ [BufEvent.full hs]).length ≤ s.cfg.bufChanCap
     simp only [List.length_append, List.length_cons, List.length_nil]
     omega
-  · exact Same.of_eq rfl rfl rfl rfl rfl rfl rfl
+  · exact QSame.of_eq rfl rfl rfl rfl rfl rfl rfl
 
-theorem same_poolAdd {s s' : State} {h : Nat} {o o' : Oracle} (hp : poolAdd s h o = .ok (s', o')) : Same s s' := by
+theorem qsame_poolAdd {s s' : State} {h : Nat} {o o' : Oracle} (hp : poolAdd s h o = .ok (s', o')) : QSame s s' := by
   unfold poolAdd at hp
   split at hp
   · cases hp
@@ -658,14 +658,14 @@ theorem same_poolAdd {s s' : State} {h : Nat} {o o' : Oracle} (hp : poolAdd s h 
     · rename_i buf _
       simp only [Except.ok.injEq, Prod.mk.injEq] at hp
       obtain ⟨rfl, -⟩ := hp
-      have h1 : Same s (if buf.length ≥ s.cfg.bufSize then (acceptBuffer s buf, ([] : List Nat)) else (s, buf)).1 := by
+      have h1 : QSame s (if buf.length ≥ s.cfg.bufSize then (acceptBuffer s buf, ([] : List Nat)) else (s, buf)).1 := by
         split
-        · exact same_acceptBuffer s buf
-        · exact Same.refl s
-      exact h1.trans (Same.of_eq rfl rfl rfl rfl rfl rfl rfl)
+        · exact qsame_acceptBuffer s buf
+        · exact QSame.refl s
+      exact h1.trans (QSame.of_eq rfl rfl rfl rfl rfl rfl rfl)
 
-theorem same_readKey {s s' : State} {k : Nat} {o o' : Oracle} {v : Option Nat}
-    (h : readKey s k o = .ok (s', v, o')) : Same s s' := by
+theorem qsame_readKey {s s' : State} {k : Nat} {o o' : Oracle} {v : Option Nat}
+    (h : readKey s k o = .ok (s', v, o')) : QSame s s' := by
   unfold readKey at h
   split at h
   · split at h
@@ -674,90 +674,90 @@ theorem same_readKey {s s' : State} {k : Nat} {o o' : Oracle} {v : Option Nat}
       · rename_i s2 o2 hp
         simp only [Except.ok.injEq, Prod.mk.injEq] at h
         obtain ⟨rfl, -, -⟩ := h
-        refine Same.trans ?_ (same_poolAdd hp)
-        exact Same.of_eq rfl rfl rfl rfl rfl rfl rfl
+        refine QSame.trans ?_ (qsame_poolAdd hp)
+        exact QSame.of_eq rfl rfl rfl rfl rfl rfl rfl
       · cases h
     · simp only [Except.ok.injEq, Prod.mk.injEq] at h
       obtain ⟨rfl, -, -⟩ := h
-      exact Same.of_eq rfl rfl rfl rfl rfl rfl rfl
+      exact QSame.of_eq rfl rfl rfl rfl rfl rfl rfl
   · simp only [Except.ok.injEq, Prod.mk.injEq] at h
     obtain ⟨rfl, -, -⟩ := h
-    exact Same.of_eq rfl rfl rfl rfl rfl rfl rfl
+    exact QSame.of_eq rfl rfl rfl rfl rfl rfl rfl
 
-theorem same_readKeys {ks : List Nat} : ∀ {s s' : State} {o o' : Oracle} {acc vs : List (Option Nat)},
-    readKeys s ks o acc = .ok (s', vs, o') → Same s s' := by
+theorem qsame_readKeys {ks : List Nat} : ∀ {s s' : State} {o o' : Oracle} {acc vs : List (Option Nat)},
+    readKeys s ks o acc = .ok (s', vs, o') → QSame s s' := by
   induction ks with
   | nil =>
     intro s s' o o' acc vs h
     simp only [readKeys, Except.ok.injEq, Prod.mk.injEq] at h
     obtain ⟨rfl, -, -⟩ := h
-    exact Same.refl s
+    exact QSame.refl s
   | cons k ks ih =>
     intro s s' o o' acc vs h
     unfold readKeys at h
     split at h
     · rename_i s1 v o1 hk
-      exact (same_readKey hk).trans (ih h)
+      exact (qsame_readKey hk).trans (ih h)
     · cases h
 
-theorem same_clientGet {s s' : State} {k : Nat} {o o' : Oracle} {out : Out}
-    (h : clientGet s k o = .ok (s', out, o')) : Same s s' := by
+theorem qsame_clientGet {s s' : State} {k : Nat} {o o' : Oracle} {out : Out}
+    (h : clientGet s k o = .ok (s', out, o')) : QSame s s' := by
   unfold clientGet at h
   split at h
   · simp only [Except.ok.injEq, Prod.mk.injEq] at h
     obtain ⟨rfl, -, -⟩ := h
-    exact Same.refl s
+    exact QSame.refl s
   · split at h
     · rename_i s1 v o1 hk
       simp only [Except.ok.injEq, Prod.mk.injEq] at h
       obtain ⟨rfl, -, -⟩ := h
-      exact same_readKey hk
+      exact qsame_readKey hk
     · cases h
 
-theorem same_clientMultiGet {s s' : State} {ks : List Nat} {o o' : Oracle} {out : Out}
-    (h : clientMultiGet s ks o = .ok (s', out, o')) : Same s s' := by
+theorem qsame_clientMultiGet {s s' : State} {ks : List Nat} {o o' : Oracle} {out : Out}
+    (h : clientMultiGet s ks o = .ok (s', out, o')) : QSame s s' := by
   unfold clientMultiGet at h
   split at h
   · simp only [Except.ok.injEq, Prod.mk.injEq] at h
     obtain ⟨rfl, -, -⟩ := h
-    exact Same.refl s
+    exact QSame.refl s
   · split at h
     · rename_i s1 v o1 hk
       simp only [Except.ok.injEq, Prod.mk.injEq] at h
       obtain ⟨rfl, -, -⟩ := h
-      exact same_readKeys hk
+      exact qsame_readKeys hk
     · cases h
 
-theorem same_sweepEvict (s : State) (id : Nat) : Same s (sweepEvict s id).1 := by
+theorem qsame_sweepEvict (s : State) (id : Nat) : QSame s (sweepEvict s id).1 := by
   unfold sweepEvict
   simp only []
   split
   · rename_i e _
-    exact Same.trans (Same.of_eq (s' := { s with adm := (s.adm.delete id).1 }) rfl rfl rfl rfl rfl rfl rfl)
-      (same_applyEvict _ e)
-  · exact Same.refl s
+    exact QSame.trans (QSame.of_eq (s' := { s with adm := (s.adm.delete id).1 }) rfl rfl rfl rfl rfl rfl rfl)
+      (qsame_applyEvict _ e)
+  · exact QSame.refl s
 
-theorem same_sweepEntries (l : List ((Nat × Nat) × Nat)) :
-    ∀ (s : State) (acc : List Evicted), Same s (sweepEntries s l acc).1 := by
+theorem qsame_sweepEntries (l : List ((Nat × Nat) × Nat)) :
+    ∀ (s : State) (acc : List Evicted), QSame s (sweepEntries s l acc).1 := by
   induction l with
-  | nil => intro s acc; exact Same.refl s
+  | nil => intro s acc; exact QSame.refl s
   | cons x l ih =>
     intro s acc
     obtain ⟨⟨sh, id⟩, e⟩ := x
     unfold sweepEntries
-    exact (same_sweepEvict s id).trans (ih _ _)
+    exact (qsame_sweepEvict s id).trans (ih _ _)
 
-theorem same_sweepStep {s s' : State} {out : Out} (h : sweepStep s = .ok (s', out)) : Same s s' := by
+theorem qsame_sweepStep {s s' : State} {out : Out} (h : sweepStep s = .ok (s', out)) : QSame s s' := by
   unfold sweepStep at h
   split at h
   · cases h
   · simp only [Except.ok.injEq, Prod.mk.injEq] at h
     obtain ⟨rfl, -⟩ := h
-    exact (same_sweepEntries _ s []).trans (Same.of_eq rfl rfl rfl rfl rfl rfl rfl)
+    exact (qsame_sweepEntries _ s []).trans (QSame.of_eq rfl rfl rfl rfl rfl rfl rfl)
 
 /-- One step of the access consumer: it was alive, takes the head of the buffer channel, and either keeps
     the rest or exits (dropping the channel). Nothing else the queue invariant reads changes. -/
-theorem consumerStep_spec {s s' : State} {o o' : Oracle} {out : Out} (h : consumerStep s o = .ok (s', out, o')) :
+theorem consumerStep_qspec {s s' : State} {o o' : Oracle} {out : Out} (h : consumerStep s o = .ok (s', out, o')) :
     s.consumerAlive = true ∧ s'.queue = s.queue ∧ s'.acks = s.acks ∧ s'.worker = s.worker ∧ s'.cfg = s.cfg ∧
     s'.shutting = s.shutting ∧ s'.pend = s.pend ∧
     ∃ x q, s.bufq = x :: q ∧ ((s'.bufq = q ∧ s'.consumerAlive = true) ∨ (s'.bufq = [] ∧ s'.consumerAlive = false)) := by
@@ -784,9 +784,9 @@ theorem consumerStep_spec {s s' : State} {o o' : Oracle} {out : Out} (h : consum
           obtain ⟨rfl, -, -⟩ := h
           exact ⟨rfl, rfl, rfl, rfl, rfl, rfl, _, _, hq, Or.inr ⟨rfl, rfl⟩⟩
 
-theorem same_consumerStep {s s' : State} {o o' : Oracle} {out : Out} (h : consumerStep s o = .ok (s', out, o')) :
-    Same s s' := by
-  obtain ⟨-, h1, h2, h3, h4, h5, h6, x, q, hq, hb⟩ := consumerStep_spec h
+theorem qsame_consumerStep {s s' : State} {o o' : Oracle} {out : Out} (h : consumerStep s o = .ok (s', out, o')) :
+    QSame s s' := by
+  obtain ⟨-, h1, h2, h3, h4, h5, h6, x, q, hq, hb⟩ := consumerStep_qspec h
   refine ⟨h1, h2, h3, h4, h5, h6, fun hle => ?_⟩
   rw [hq] at hle
   simp only [List.length_cons] at hle
@@ -796,7 +796,7 @@ theorem same_consumerStep {s s' : State} {o o' : Oracle} {out : Out} (h : consum
 
 /-! ### `shutdown()` and `resume` -/
 
-theorem Pending.ok_true {b : Bool} {p : Pending} (h : p.ok b) : p.ok true := by
+theorem Pending.qok_true {b : Bool} {p : Pending} (h : p.qok b) : p.qok true := by
   cases p with
   | send cmd => exact h
   | shutdownCmd => rfl
@@ -804,10 +804,10 @@ theorem Pending.ok_true {b : Bool} {p : Pending} (h : p.ok b) : p.ok true := by
 
 theorem qinv_setFlag {s : State} (h : QInv s) : QInv { s with shutting := true } :=
   ⟨h.sorted, h.inRange, h.queuedPending, h.pendingQueued, h.bounded, h.bufBounded, fun _ => rfl,
-   fun _ _ _ => rfl, fun c p hg => Pending.ok_true (h.parkedOk c p hg)⟩
+   fun _ _ _ => rfl, fun c p hg => Pending.qok_true (h.parkedOk c p hg)⟩
 
 theorem qinv_shutdownFinish {s : State} (h : QInv s) : QInv (shutdownFinish s) :=
-  h.same (Same.of_eq rfl rfl rfl rfl rfl rfl rfl)
+  h.same (QSame.of_eq rfl rfl rfl rfl rfl rfl rfl)
 
 theorem qinv_bufPush {s : State} (h : QInv s) (x : BufEvent) (hr : s.bufq.length < s.cfg.bufChanCap) :
     QInv { s with bufq := s.bufq ++ [x] } := by
@@ -889,22 +889,22 @@ theorem qinv_resume {s s' : State} {out : Out} (h : QInv s) {c : Nat} (hr : resu
 
 /-- Non-worker events: at most one acknowledgement is appended (none changes), at most one command is
     appended at the tail, the shutdown flag is never lowered, worker mode and configuration stay. -/
-structure Mono (s s' : State) : Prop where
+structure QMono (s s' : State) : Prop where
   acks : s'.acks = s.acks ∨ ∃ st, s'.acks = s.acks ++ [st]
   queue : s'.queue = s.queue ∨ ∃ x, s'.queue = s.queue ++ [x]
   shutting : s.shutting = true → s'.shutting = true
   worker : s'.worker = s.worker
   cfg : s'.cfg = s.cfg
 
-theorem Mono.of_same {s s' : State} (h : Same s s') : Mono s s' :=
+theorem QMono.of_same {s s' : State} (h : QSame s s') : QMono s s' :=
   ⟨Or.inl h.acks, Or.inl h.queue, fun x => h.shutting.trans x, h.worker, h.cfg⟩
 
-theorem Mono.same_left {s s1 s' : State} (h : Same s s1) (m : Mono s1 s') : Mono s s' := by
+theorem QMono.qsame_left {s s1 s' : State} (h : QSame s s1) (m : QMono s1 s') : QMono s s' := by
   obtain ⟨a, q, f, w, c⟩ := m
   rw [h.acks] at a; rw [h.queue] at q; rw [h.shutting] at f; rw [h.worker] at w; rw [h.cfg] at c
   exact ⟨a, q, f, w, c⟩
 
-theorem mono_sendCmd (s : State) (c : Nat) (cmd : Cmd) : Mono s (sendCmd s c cmd).1 := by
+theorem qmono_sendCmd (s : State) (c : Nat) (cmd : Cmd) : QMono s (sendCmd s c cmd).1 := by
   unfold sendCmd
   split
   · exact ⟨Or.inl rfl, Or.inl rfl, id, rfl, rfl⟩
@@ -912,16 +912,16 @@ theorem mono_sendCmd (s : State) (c : Nat) (cmd : Cmd) : Mono s (sendCmd s c cmd
     · exact ⟨Or.inl rfl, Or.inl rfl, id, rfl, rfl⟩
     · exact ⟨Or.inr ⟨_, rfl⟩, Or.inr ⟨_, rfl⟩, id, rfl, rfl⟩
 
-theorem mono_spotAck (s : State) (st : Status) : Mono s (spotAck s st).1 :=
+theorem qmono_spotAck (s : State) (st : Status) : QMono s (spotAck s st).1 :=
   ⟨Or.inr ⟨_, rfl⟩, Or.inl rfl, id, rfl, rfl⟩
 
-theorem mono_clientShape {s : State} {c : Nat} {r : State × Out} (hs : ClientShape s c r) : Mono s r.1 := by
+theorem qmono_clientShape {s : State} {c : Nat} {r : State × Out} (hs : QClientShape s c r) : QMono s r.1 := by
   cases hs with
-  | same out e => exact Mono.of_same e
-  | send cmd e hc => exact Mono.same_left e (mono_sendCmd _ c cmd)
-  | spot st e hst => exact Mono.same_left e (mono_spotAck _ st)
+  | same out e => exact QMono.of_same e
+  | send cmd e hc => exact QMono.qsame_left e (qmono_sendCmd _ c cmd)
+  | spot st e hst => exact QMono.qsame_left e (qmono_spotAck _ st)
 
-theorem mono_shutdownSendBuf (s : State) (c : Nat) : Mono s (shutdownSendBuf s c).1 := by
+theorem qmono_shutdownSendBuf (s : State) (c : Nat) : QMono s (shutdownSendBuf s c).1 := by
   unfold shutdownSendBuf
   split
   · exact ⟨Or.inl rfl, Or.inl rfl, id, rfl, rfl⟩
@@ -929,13 +929,13 @@ theorem mono_shutdownSendBuf (s : State) (c : Nat) : Mono s (shutdownSendBuf s c
     · exact ⟨Or.inl rfl, Or.inl rfl, id, rfl, rfl⟩
     · exact ⟨Or.inl rfl, Or.inl rfl, id, rfl, rfl⟩
 
-theorem mono_shutdownSendCmd (s : State) (c : Nat) : Mono s (shutdownSendCmd s c).1 := by
+theorem qmono_shutdownSendCmd (s : State) (c : Nat) : QMono s (shutdownSendCmd s c).1 := by
   unfold shutdownSendCmd
   split
-  · exact mono_shutdownSendBuf s c
+  · exact qmono_shutdownSendBuf s c
   · split
     · exact ⟨Or.inl rfl, Or.inl rfl, id, rfl, rfl⟩
-    · obtain ⟨a, q, f, w, cf⟩ := mono_shutdownSendBuf { s with queue := s.queue ++ [(.shutdown, none)] } c
+    · obtain ⟨a, q, f, w, cf⟩ := qmono_shutdownSendBuf { s with queue := s.queue ++ [(.shutdown, none)] } c
       refine ⟨a, ?_, f, w, cf⟩
       rcases q with q | ⟨x, q⟩
       · exact Or.inr ⟨_, q⟩
@@ -949,14 +949,14 @@ theorem mono_shutdownSendCmd (s : State) (c : Nat) : Mono s (shutdownSendCmd s c
           · intro q; have := congrArg List.length q; simp at this
           · intro q; have := congrArg List.length q; simp [shutdownFinish] at this
 
-theorem mono_clientShutdown (s : State) (c : Nat) : Mono s (clientShutdown s c).1 := by
+theorem qmono_clientShutdown (s : State) (c : Nat) : QMono s (clientShutdown s c).1 := by
   unfold clientShutdown
   split
   · exact ⟨Or.inl rfl, Or.inl rfl, id, rfl, rfl⟩
-  · obtain ⟨a, q, f, w, cf⟩ := mono_shutdownSendCmd { s with shutting := true } c
+  · obtain ⟨a, q, f, w, cf⟩ := qmono_shutdownSendCmd { s with shutting := true } c
     exact ⟨a, q, fun _ => f rfl, w, cf⟩
 
-theorem mono_resume {s s' : State} {out : Out} {c : Nat} (hr : resume s c = .ok (s', out)) : Mono s s' := by
+theorem qmono_resume {s s' : State} {out : Out} {c : Nat} (hr : resume s c = .ok (s', out)) : QMono s s' := by
   unfold resume at hr
   split at hr
   · cases hr
@@ -969,60 +969,60 @@ theorem mono_resume {s s' : State} {out : Out} {c : Nat} (hr : resume s c = .ok 
       · simp only [Except.ok.injEq] at hr
         have e : s' = (sendCmd { s with pend := s.pend.del c } c cmd).1 := by rw [hr]
         rw [e]
-        obtain ⟨a, q, f, w, cf⟩ := mono_sendCmd { s with pend := s.pend.del c } c cmd
+        obtain ⟨a, q, f, w, cf⟩ := qmono_sendCmd { s with pend := s.pend.del c } c cmd
         exact ⟨a, q, f, w, cf⟩
     · split at hr
       · cases hr
       · simp only [Except.ok.injEq] at hr
         have e : s' = (shutdownSendCmd { s with pend := s.pend.del c } c).1 := by rw [hr]
         rw [e]
-        obtain ⟨a, q, f, w, cf⟩ := mono_shutdownSendCmd { s with pend := s.pend.del c } c
+        obtain ⟨a, q, f, w, cf⟩ := qmono_shutdownSendCmd { s with pend := s.pend.del c } c
         exact ⟨a, q, f, w, cf⟩
     · split at hr
       · cases hr
       · simp only [Except.ok.injEq] at hr
         have e : s' = (shutdownSendBuf { s with pend := s.pend.del c } c).1 := by rw [hr]
         rw [e]
-        obtain ⟨a, q, f, w, cf⟩ := mono_shutdownSendBuf { s with pend := s.pend.del c } c
+        obtain ⟨a, q, f, w, cf⟩ := qmono_shutdownSendBuf { s with pend := s.pend.del c } c
         exact ⟨a, q, f, w, cf⟩
 
 /-! ### every event -/
 
 /-- Case analysis of a Layer A step, as far as the queue is concerned. -/
-theorem step_cases {s s' : State} {ev : Ev} {o o' : Oracle} {out : Out} (h : step s ev o = .ok (s', out, o')) :
-    (∃ c, ClientShape s c (s', out)) ∨ Same s s' ∨ (∃ c, ev = .shutdown c ∧ clientShutdown s c = (s', out)) ∨
+theorem qstep_cases {s s' : State} {ev : Ev} {o o' : Oracle} {out : Out} (h : step s ev o = .ok (s', out, o')) :
+    (∃ c, QClientShape s c (s', out)) ∨ QSame s s' ∨ (∃ c, ev = .shutdown c ∧ clientShutdown s c = (s', out)) ∨
     (∃ c, ev = .resume c ∧ resume s c = .ok (s', out)) ∨ (ev = .worker ∧ workerStep s o = .ok (s', out, o')) := by
   cases ev with
   | put c k v =>
     simp only [step, Except.ok.injEq, Prod.mk.injEq] at h; obtain ⟨rfl, rfl, -⟩ := h
-    exact Or.inl ⟨c, shape_clientPut s c k v⟩
+    exact Or.inl ⟨c, qshape_clientPut s c k v⟩
   | putW c k v w =>
     simp only [step, Except.ok.injEq, Prod.mk.injEq] at h; obtain ⟨rfl, rfl, -⟩ := h
-    exact Or.inl ⟨c, shape_clientPutW s c k v w⟩
+    exact Or.inl ⟨c, qshape_clientPutW s c k v w⟩
   | putTtl c k v t =>
     simp only [step, Except.ok.injEq, Prod.mk.injEq] at h; obtain ⟨rfl, rfl, -⟩ := h
-    exact Or.inl ⟨c, shape_clientPutTtl s c k v t⟩
+    exact Or.inl ⟨c, qshape_clientPutTtl s c k v t⟩
   | putWTtl c k v w t =>
     simp only [step, Except.ok.injEq, Prod.mk.injEq] at h; obtain ⟨rfl, rfl, -⟩ := h
-    exact Or.inl ⟨c, shape_clientPutWTtl s c k v w t⟩
+    exact Or.inl ⟨c, qshape_clientPutWTtl s c k v w t⟩
   | upsert c k v w t rm =>
     simp only [step, Except.ok.injEq, Prod.mk.injEq] at h; obtain ⟨rfl, rfl, -⟩ := h
-    exact Or.inl ⟨c, shape_clientUpsert s c k v w t rm⟩
+    exact Or.inl ⟨c, qshape_clientUpsert s c k v w t rm⟩
   | delete c k =>
     simp only [step, Except.ok.injEq, Prod.mk.injEq] at h; obtain ⟨rfl, rfl, -⟩ := h
-    exact Or.inl ⟨c, shape_clientDelete s c k⟩
+    exact Or.inl ⟨c, qshape_clientDelete s c k⟩
   | get k =>
     simp only [step] at h
-    exact Or.inr (Or.inl (same_clientGet h))
+    exact Or.inr (Or.inl (qsame_clientGet h))
   | multiGet ks =>
     simp only [step] at h
-    exact Or.inr (Or.inl (same_clientMultiGet h))
+    exact Or.inr (Or.inl (qsame_clientMultiGet h))
   | weight =>
     simp only [step, Except.ok.injEq, Prod.mk.injEq] at h; obtain ⟨rfl, -, -⟩ := h
-    exact Or.inr (Or.inl (Same.refl s))
+    exact Or.inr (Or.inl (QSame.refl s))
   | stats =>
     simp only [step, Except.ok.injEq, Prod.mk.injEq] at h; obtain ⟨rfl, -, -⟩ := h
-    exact Or.inr (Or.inl (Same.refl s))
+    exact Or.inr (Or.inl (QSame.refl s))
   | worker =>
     simp only [step] at h
     exact Or.inr (Or.inr (Or.inr (Or.inr ⟨rfl, h⟩)))
@@ -1031,14 +1031,14 @@ theorem step_cases {s s' : State} {ev : Ev} {o o' : Oracle} {out : Out} (h : ste
     split at h
     · rename_i r hr
       simp only [Except.ok.injEq, Prod.mk.injEq] at h; obtain ⟨rfl, -, -⟩ := h
-      exact Or.inr (Or.inl (same_sweepStep (out := r.2) hr))
+      exact Or.inr (Or.inl (qsame_sweepStep (out := r.2) hr))
     · cases h
   | consumer =>
     simp only [step] at h
-    exact Or.inr (Or.inl (same_consumerStep h))
+    exact Or.inr (Or.inl (qsame_consumerStep h))
   | advance d =>
     simp only [step, Except.ok.injEq, Prod.mk.injEq] at h; obtain ⟨rfl, -, -⟩ := h
-    exact Or.inr (Or.inl (Same.of_eq rfl rfl rfl rfl rfl rfl rfl))
+    exact Or.inr (Or.inl (QSame.of_eq rfl rfl rfl rfl rfl rfl rfl))
   | shutdown c =>
     simp only [step, Except.ok.injEq, Prod.mk.injEq] at h; obtain ⟨rfl, rfl, -⟩ := h
     exact Or.inr (Or.inr (Or.inl ⟨c, rfl, rfl⟩))
@@ -1053,7 +1053,7 @@ theorem step_cases {s s' : State} {ev : Ev} {o o' : Oracle} {out : Out} (h : ste
     simp only [step] at h
     split at h
     · simp only [Except.ok.injEq, Prod.mk.injEq] at h; obtain ⟨rfl, -, -⟩ := h
-      exact Or.inr (Or.inl (Same.refl s))
+      exact Or.inr (Or.inl (QSame.refl s))
     · cases h
 
 theorem qinv_init (cfg : Cfg) (now : Nat) (seeds : List Nat) : QInv (State.init cfg now seeds) := by
@@ -1067,7 +1067,7 @@ theorem qinv_init (cfg : Cfg) (now : Nat) (seeds : List Nat) : QInv (State.init 
 
 theorem qinv_step {s s' : State} {ev : Ev} {o o' : Oracle} {out : Out} (h : QInv s)
     (hs : step s ev o = .ok (s', out, o')) : QInv s' := by
-  rcases step_cases hs with ⟨c, hc⟩ | hsame | ⟨c, -, hc⟩ | ⟨c, -, hc⟩ | ⟨-, hw⟩
+  rcases qstep_cases hs with ⟨c, hc⟩ | hsame | ⟨c, -, hc⟩ | ⟨c, -, hc⟩ | ⟨-, hw⟩
   · exact qinv_clientShape h hc
   · exact h.same hsame
   · have := qinv_clientShutdown h c
@@ -1076,14 +1076,14 @@ theorem qinv_step {s s' : State} {ev : Ev} {o o' : Oracle} {out : Out} (h : QInv
   · exact qinv_workerStep h hw
 
 /-- non-worker events only extend the acknowledgement list and the queue -/
-theorem mono_step {s s' : State} {ev : Ev} {o o' : Oracle} {out : Out} (hev : ev ≠ .worker)
-    (hs : step s ev o = .ok (s', out, o')) : Mono s s' := by
-  rcases step_cases hs with ⟨c, hc⟩ | hsame | ⟨c, -, hc⟩ | ⟨c, -, hc⟩ | ⟨he, -⟩
-  · exact mono_clientShape hc
-  · exact Mono.of_same hsame
-  · have := mono_clientShutdown s c
+theorem qmono_step {s s' : State} {ev : Ev} {o o' : Oracle} {out : Out} (hev : ev ≠ .worker)
+    (hs : step s ev o = .ok (s', out, o')) : QMono s s' := by
+  rcases qstep_cases hs with ⟨c, hc⟩ | hsame | ⟨c, -, hc⟩ | ⟨c, -, hc⟩ | ⟨he, -⟩
+  · exact qmono_clientShape hc
+  · exact QMono.of_same hsame
+  · have := qmono_clientShutdown s c
     rw [hc] at this; exact this
-  · exact mono_resume hc
+  · exact qmono_resume hc
   · exact absurd he hev
 
 /-- States reachable from the initial state by Layer A steps (with any oracles). -/
@@ -1102,28 +1102,28 @@ theorem qinv_reach {cfg : Cfg} {now : Nat} {seeds : List Nat} {s : State} (h : Q
 /-! ### the two blocking sends of `shutdown()` -/
 
 /-- `shutdown()` has run to its end: both helper threads are told to stop, everything is cleared -/
-def Finished (s : State) : Prop :=
+def ShutFinished (s : State) : Prop :=
   s.consumerKeep = false ∧ s.sweeperKeep = false ∧ s.store = [] ∧ s.adm.kw = [] ∧ s.adm.used = 0 ∧ s.ttl = []
 
-theorem finished_shutdownFinish (s : State) : Finished (shutdownFinish s) := ⟨rfl, rfl, rfl, rfl, rfl, rfl⟩
+theorem shutFinished_shutdownFinish (s : State) : ShutFinished (shutdownFinish s) := ⟨rfl, rfl, rfl, rfl, rfl, rfl⟩
 
 /-- the second send: either the call runs to its end, or (consumer alive, buffer channel full) parks there -/
-theorem shutdownSendBuf_spec (s : State) (c : Nat) :
-    ((shutdownSendBuf s c).2 = .none ∧ Finished (shutdownSendBuf s c).1 ∧ (shutdownSendBuf s c).1.pend = s.pend) ∨
+theorem shutdownSendBuf_qspec (s : State) (c : Nat) :
+    ((shutdownSendBuf s c).2 = .none ∧ ShutFinished (shutdownSendBuf s c).1 ∧ (shutdownSendBuf s c).1.pend = s.pend) ∨
     (s.consumerAlive = true ∧ s.bufq.length ≥ s.cfg.bufChanCap ∧
       shutdownSendBuf s c = ({ s with pend := s.pend.set c .shutdownBuf }, .parked)) := by
   unfold shutdownSendBuf
   split
-  · exact Or.inl ⟨rfl, finished_shutdownFinish _, rfl⟩
+  · exact Or.inl ⟨rfl, shutFinished_shutdownFinish _, rfl⟩
   · rename_i ha
     split
     · rename_i hf
       exact Or.inr ⟨by simpa using ha, hf, rfl⟩
-    · exact Or.inl ⟨rfl, finished_shutdownFinish _, rfl⟩
+    · exact Or.inl ⟨rfl, shutFinished_shutdownFinish _, rfl⟩
 
 /-- the first send: either (worker alive, queue full) the call parks there, or it goes on to the second send
     from a state with the same parking slots, buffer channel and consumer -/
-theorem shutdownSendCmd_spec (s : State) (c : Nat) :
+theorem shutdownSendCmd_qspec (s : State) (c : Nat) :
     (s.worker ≠ .dead ∧ s.queue.length ≥ s.cfg.cmdCap ∧
       shutdownSendCmd s c = ({ s with pend := s.pend.set c .shutdownCmd }, .parked)) ∨
     (¬ (s.worker ≠ .dead ∧ s.queue.length ≥ s.cfg.cmdCap) ∧
@@ -1141,7 +1141,7 @@ theorem shutdownSendCmd_spec (s : State) (c : Nat) :
       exact Or.inr ⟨fun h => hf h.2, { s with queue := s.queue ++ [(.shutdown, none)] }, rfl, rfl, rfl, rfl, rfl, rfl⟩
 
 /-- `resume` of a call parked at the first send, when enabled -/
-theorem resume_shutdownCmd {s : State} {c : Nat} (hp : s.pend.get? c = some .shutdownCmd)
+theorem qresume_shutdownCmd {s : State} {c : Nat} (hp : s.pend.get? c = some .shutdownCmd)
     (he : ¬ (s.worker ≠ .dead ∧ s.queue.length ≥ s.cfg.cmdCap)) :
     resume s c = .ok (shutdownSendCmd { s with pend := s.pend.del c } c) := by
   unfold resume
@@ -1157,7 +1157,7 @@ theorem resume_shutdownCmd {s : State} {c : Nat} (hp : s.pend.get? c = some .shu
   rfl
 
 /-- `resume` of a call parked at the second send, when enabled -/
-theorem resume_shutdownBuf {s : State} {c : Nat} (hp : s.pend.get? c = some .shutdownBuf)
+theorem qresume_shutdownBuf {s : State} {c : Nat} (hp : s.pend.get? c = some .shutdownBuf)
     (he : ¬ (s.consumerAlive = true ∧ s.bufq.length ≥ s.cfg.bufChanCap)) :
     resume s c = .ok (shutdownSendBuf { s with pend := s.pend.del c } c) := by
   unfold resume
@@ -1177,23 +1177,23 @@ theorem resume_shutdownBuf {s : State} {c : Nat} (hp : s.pend.get? c = some .shu
 deriving instance DecidableEq for Out
 
 /-- runs events with the empty oracle (enough whenever admission has room), collecting the outputs -/
-def runEvs (s : State) : List Ev → Option (State × List Out)
+def qrun (s : State) : List Ev → Option (State × List Out)
   | [] => some (s, [])
   | ev :: evs =>
     match step s ev {} with
     | .ok (s', out, _) =>
-      (match runEvs s' evs with
+      (match qrun s' evs with
        | some (s'', outs) => some (s'', out :: outs)
        | none => none)
     | .error _ => none
 
 /-- runs events, each with its own oracle, collecting the outputs -/
-def runEvsO (s : State) : List (Ev × Oracle) → Option (State × List Out)
+def qrunO (s : State) : List (Ev × Oracle) → Option (State × List Out)
   | [] => some (s, [])
   | (ev, o) :: evs =>
     match step s ev o with
     | .ok (s', out, _) =>
-      (match runEvsO s' evs with
+      (match qrunO s' evs with
        | some (s'', outs) => some (s'', out :: outs)
        | none => none)
     | .error _ => none
@@ -1210,7 +1210,7 @@ structure QView where
 def State.qview (s : State) : QView := ⟨s.queue, s.acks, s.worker, s.shutting, s.pend⟩
 
 /-- a small configuration: command queue of capacity `cap` -/
-def cfgCap (cap : Nat) : Cfg :=
+def qcfg (cap : Nat) : Cfg :=
   { maxWeight := 100, shards := 4, cmdCap := cap, poolSize := 1, bufSize := 2, counters := 2 }
 
 end Cached
